@@ -54,6 +54,9 @@ inductive Cond where
   | fileMatches     -- `file_index == guard.current_file_index`          (record_ack)
   | ackAdvances     -- `capped > guard.acked_offset`, capped = min(off, sent) (record_ack)
   | notCancelled    -- `guard.cancelled.is_none()`                       (cancel)
+  | unknown         -- any other enclosing condition / `else` / `match` arm: the call is reached only
+                    -- under a condition the extractor does not understand; the model takes the
+                    -- pessimistic reading (it may not hold), so no obligation can rest on this call
   deriving DecidableEq, Repr
 
 /-- `never`: the method contains no `notify_all()`.  `when cs`: it contains one, nested inside `if`s
@@ -77,6 +80,7 @@ def Cond.eval (c : Cond) (op : Op) (s : Sh) : Bool :=
   | .fileMatches, .ack f _ => f == s.file
   | .ackAdvances, .ack _ off => Nat.blt s.acked (min off s.sent)
   | .notCancelled, .cancel _ => s.cancelled.isNone
+  | .unknown, _ => false
   | _, _ => false
 
 def Notify.fires (n : Notify) (op : Op) (s : Sh) : Bool :=
